@@ -124,7 +124,7 @@ def gen_cases(tier, seed):
 
 
 def run_case(case, tier):
-    rig = ManagerRig(stepped=True, timecode=bool(case.get("tc")), loud=bool(case.get("n", 0) % 4 == 2))   # every fourth case: the manager publishes its own log messages
+    rig = ManagerRig(stepped=True, timecode=bool(case.get("tc")), loud=(2 if case.get("n", 0) % 8 == 6 else bool(case.get("n", 0) % 4 == 2)))   # every fourth case: the manager publishes its own log messages (half of them at DEBUG level)
     try:
         sc = Scenario(rig, case["seed"])
         sc.vary_source = True
